@@ -51,12 +51,14 @@ class Clock:
 
     def __init__(self, c, start):
         self.c, self.last, self.n = c, start, 0
+        self.times = []
 
     def now(self, c):
         t = c.real('t%d' % self.n)
         self.n += 1
         c.require(compare('>=', t, self.last))
         self.last = t
+        self.times.append(t)
         c.event('now')
         return mk_time(c, t)
 
@@ -78,6 +80,7 @@ class TaskController(Target):
         g['launches'] = 0
         g['pd_reads'] = []
         g['order'] = []
+        g['new_output'] = []
         last_launched = c.real('lastLaunched')
         c.require(compare('>=', last_launched, 0))
         clock = Clock(c, last_launched)
@@ -91,6 +94,7 @@ class TaskController(Target):
             nxt = c.bool('producers_finished@read%d' % len(g['pd_reads']))
             c.require(Implies(cur, nxt))
             pd_state['v'] = nxt
+            g.setdefault('first_pd', nxt)
             g['pd_reads'].append(nxt)
             g['order'].append('read-pd')
             return nxt
@@ -116,7 +120,11 @@ class TaskController(Target):
 
         def kill(c):
             g['kills'] += 1
-        job = Obj('job', producersHaveOutputSinceDate=Extern('producersHaveOutputSinceDate', lambda c, d: c.bool('newOutput')),
+        def new_output(c, since):
+            v = c.bool('newOutput')
+            g['new_output'].append(v)
+            return v
+        job = Obj('job', producersHaveOutputSinceDate=Extern('producersHaveOutputSinceDate', new_output),
                   producerInstances=['p'] if has_producers else [], executable='x', arguments='y',
                   workingDirectory=Obj('wd', directory='/inst/stages/stage0/c'))
         sd = {'repeatRetries': retries, 'numberTaskLaunches': 0}
@@ -131,7 +139,8 @@ class TaskController(Target):
         last_action = c.one_of('lastAction', [False, True])
         check = c.one_of('checkProducerOutput', [True, False])
         return State(args=[last_action], free={'self': this, 'checkProducerOutput': check}, this=this, sd=sd, retries=retries,
-                     last_action=last_action, suicide=suicide, rc=rc, clock=clock, has_producers=has_producers, check=check)
+                     last_action=last_action, suicide=suicide, rc=rc, clock=clock, has_producers=has_producers, check=check,
+                     last_launched=last_launched)
 
     def externs(self, c, st):
         return {'datetime.datetime': Obj('datetime-class', now=Extern('datetime.now', st.clock.now)),
@@ -163,6 +172,24 @@ class TaskController(Target):
             ('stops-only-after-the-producers-finished', Implies(killed, pd) if killed else True),
             ('kills-itself-at-most-once', g['kills'] <= 1),
         ]
+        # is there something new to look at?  the producers wrote since the last launch, or there are no producers, or the
+        # producers are finished and the observer has already waited more than 20 s for their output to appear
+        asked = g['new_output']
+        if not st.check or not st.has_producers:
+            is_new = True
+        elif asked:
+            is_new = asked[-1]
+        else:
+            waited = binop('-', st.clock.times[0], st.last_launched) if st.clock.times else 0
+            is_new = And(g['first_pd'], compare('>', waited, 20)) if 'first_pd' in g else False
+        cl += [('executes-only-when-there-is-new-output', Implies(executed, is_new) if executed else True),
+               ('new-output-is-consumed', Implies(And(consume, is_new), executed))]
+        if st.check and st.has_producers and st.clock.times and 'first_pd' in g:
+            # lastLaunched is primed before the first execution, so "output since lastLaunched" may be false although the
+            # final output was never looked at: once the producers are finished, 20 s of waiting force an execution
+            waited0 = binop('-', st.clock.times[0], st.last_launched)
+            cl.append(('runs-after-waiting-20s-for-finished-producers',
+                       Implies(And(consume, g['first_pd'], compare('>', waited0, 20)), executed)))
         succeeded = And(executed, Eq(st.rc, 0)) if executed else False
         launch_ok = executed and 'taskGenerator.raises' in c.choices and c.choices['taskGenerator.raises'] == 0
         if launch_ok:
